@@ -429,6 +429,13 @@ func c16URISplitOrder(c *Ctx, rule string) {
 	// the text searched for '@' is the URI after its scheme, not yet cut anywhere
 	uncut := func(text ssa.Value) bool {
 		for _, lf := range phiLeaves(text) {
+			// strings.CutPrefix(uri, "sip:") / strings.TrimPrefix(uri, "sips:")
+			if cc, idx := callOfResult(lf); cc != nil && idx == 0 && (w.calleeName(cc) == "strings.CutPrefix" || w.calleeName(cc) == "strings.TrimPrefix") {
+				if pfx, isS := constString(callArg(cc, 1)); isS && (pfx == "sip:" || pfx == "sips:") && isParam(f, callArg(cc, 0), 0) {
+					continue
+				}
+				return false
+			}
 			sl, ok := lf.(*ssa.Slice)
 			if !ok || !isParam(f, sl.X, 0) || sl.High != nil {
 				return false
